@@ -38,17 +38,17 @@ var defaultStubs = []struct {
 	{"time.Sleep", StubSpec{"noop", ""}},
 	{"(time.Time).", StubSpec{"noop", ""}},
 	{"(time.Duration).String", StubSpec{"intrinsic", "opaque.string"}},
-	{"fmt.Sprintf", StubSpec{"intrinsic", "opaque.string"}},
-	{"fmt.Sprint", StubSpec{"intrinsic", "opaque.string"}},
+	{"fmt.Sprintf", StubSpec{"intrinsic", "fmt.format"}},
+	{"fmt.Sprint", StubSpec{"intrinsic", "fmt.format"}},
 	{"fmt.Errorf", StubSpec{"intrinsic", "opaque.error"}},
 	{"fmt.Print", StubSpec{"noop", ""}},
 	{"fmt.Fprint", StubSpec{"noop", ""}},
 	{"log.", StubSpec{"noop", ""}},
 	{"os.", StubSpec{"unsupported", ""}},
 	{"encoding/hex.EncodeToString", StubSpec{"intrinsic", "opaque.string"}},
-	{"strconv.Itoa", StubSpec{"intrinsic", "opaque.string"}},
-	{"strconv.FormatUint", StubSpec{"intrinsic", "opaque.string"}},
-	{"strconv.FormatInt", StubSpec{"intrinsic", "opaque.string"}},
+	{"strconv.Itoa", StubSpec{"intrinsic", "fmt.format"}},
+	{"strconv.FormatUint", StubSpec{"intrinsic", "fmt.format"}},
+	{"strconv.FormatInt", StubSpec{"intrinsic", "fmt.format"}},
 	{"strconv.Quote", StubSpec{"intrinsic", "opaque.string"}},
 	// canopy environment model (DESIGN §3); a harness can switch any of these back with "real"
 	{"github.com/canopy-network/canopy/lib.Marshal", StubSpec{"intrinsic", "box.Marshal"}},
